@@ -30,6 +30,10 @@ PLAN = {
                                             ("o", dict(flags=[(False, False), (True, True)])),
                                             ("r", dict(flags=FF, spellings=[{}, {"upper_suffix": True}]))],
                 mc=[("MC_C05", {"quick": "MC_C05_quick.cfg", "thorough": "MC_C05_thorough.cfg"})]),
+    "C06": dict(export="Export_C06", parts=[(None, dict(flags=[(False, False), (True, True)]))],
+                mc=[("MC_C06", {"quick": "MC_C06_quick.cfg", "thorough": "MC_C06_thorough.cfg"})]),
+    "C18": dict(export="Export_C18", parts=[(None, dict(flags=FF))],
+                mc=[("MC_C18", {"quick": "MC_C18_quick.cfg", "thorough": "MC_C18_thorough.cfg"})]),
     "C07": dict(export="Export_C07", parts=[("p", dict(flags=[(False, False), (True, True)])),
                                             ("a", dict(flags=[(False, False), (False, True)], macros=[ANY_MACROS]))],
                 mc=[("MC_Scan", {"quick": "MC_Scan.cfg", "thorough": "MC_Scan_thorough.cfg"})]),
@@ -50,23 +54,29 @@ def run_part(report, prop, key, u, opts, tier):
     spellings = opts.get("spellings", [{}])
     pats, lsts = u["patterns"], u["listings"]
     rules, job_rules, seen_docs = [], [], set()
+    ranges = [()] + [tuple(r) for r in u.get("ranges", [])] if "ranges" in u else [()]
     for pi, P in enumerate(pats):
         for (mfm, ofm) in flags:
             for sp in spellings:
-                text = render.dump_yaml(render.rule_doc(P, mfm, ofm, opt=sp))
-                if (pi, text) in seen_docs:
-                    continue
-                seen_docs.add((pi, text))
-                rules.append((pi, mfm, ofm, sp))
-                jr = {"id": len(job_rules), "yaml": text}
-                if opts.get("macros"):
-                    jr["macro_paths"] = opts["macros"]
-                job_rules.append(jr)
-    job_listings = [{"id": n, "text": render.listing_text(L)} for n, L in enumerate(lsts)]
+                for rng in ranges:
+                    extra = {"valid_addr_range": {"min": rng[0], "max": rng[1]}} if rng else None
+                    text = render.dump_yaml(render.rule_doc(P, mfm, ofm, opt=sp, config_extra=extra))
+                    if (pi, text) in seen_docs:
+                        continue
+                    seen_docs.add((pi, text))
+                    rules.append((pi, mfm, ofm, sp, rng))
+                    jr = {"id": len(job_rules), "yaml": text}
+                    if opts.get("macros"):
+                        jr["macro_paths"] = opts["macros"]
+                    job_rules.append(jr)
+    if "texts" in u:   # listing text printed by TLC (JasmObjdump!LineText)
+        job_listings = [{"id": n, "text": "\n".join(t) + "\n"} for n, t in enumerate(u["texts"])]
+    else:
+        job_listings = [{"id": n, "text": render.listing_text(L)} for n, L in enumerate(lsts)]
     obs = matchpipe.drive({"rules": job_rules, "listings": job_listings, "pairs": "all",
                            "fresh": bool(opts.get("fresh"))}, tag=f"{prop}{key or ''}")
-    cases = [matchpipe.case_of(o, rules[o["r"]][0] + 1, o["l"] + 1, rules[o["r"]][1], rules[o["r"]][2])
-             for o in obs]
+    cases = [matchpipe.case_of(o, rules[o["r"]][0] + 1, o["l"] + 1, rules[o["r"]][1], rules[o["r"]][2],
+                               rules[o["r"]][4]) for o in obs]
     verdicts = matchpipe.validate(pats, lsts, cases, report, f"{prop}{key or ''}")
     report.cov["evaluations"] += len(cases)
     report.cov["traces_validated_against_impl"] += len(cases)
